@@ -379,5 +379,7 @@ def make_utf8(rng, desc):
 def random_file(rng, big=False):
     ntr = rng.choice([0, 1, 1, 2, 3, 4])
     ty = rng.choice([0, 1, 1, 2]) if ntr == 1 else rng.choice([1, 1, 2])
-    return {'type': ty, 'tpb': rng.choice([1, 96, 480, 32767, rng.randint(1, 32767)]),
+    # the header field is a signed 16-bit value: an SMPTE time division is a negative ticks_per_beat, 0 is storable as well
+    return {'type': ty, 'tpb': rng.choice([1, 96, 480, 32767, rng.randint(1, 32767), rng.randint(1, 32767), -6360, -7720, -1, -32768, 0,
+                                           rng.randint(-32768, -1)]),
             'tracks': [random_track(rng, big=big) for _ in range(ntr)]}
